@@ -31,17 +31,20 @@ def advAdjacent (ixs : List Ix) : Bool :=
   let trimmed := (flags.dropWhile (!·)).reverse.dropWhile (!·)
   trimmed.all id
 
+def listLens (ixs : List Ix) : List Nat :=
+  ixs.filterMap fun | .list ids => some ids.length | _ => none
+
+def meshInfos (ixs : List Ix) : List (Nat × Nat × Nat) :=
+  ixs.filterMap fun | .mesh ids k n => some (ids.length, k, n) | _ => none
+
 /-- broadcast shape of the advanced indices. flodym produces either no array index, exactly one
 list, or only mesh components of one `np.ix_` call (plus ints); other mixes are refused. -/
 def bshape (ixs : List Ix) : Option (List Nat) :=
-  let lists := ixs.filterMap fun | .list ids => some ids.length | _ => none
-  let meshes := ixs.filterMap fun | .mesh ids k n => some (ids.length, k, n) | _ => none
-  match lists, meshes with
+  match listLens ixs, meshInfos ixs with
   | [], [] => some []
   | [n], [] => some [n]
   | [], (m :: ms) =>
-    let n := m.2.2
-    if (m :: ms).all (fun x => x.2.2 == n) && ((m :: ms).map (·.2.1)) == List.range n
+    if (m :: ms).all (fun x => x.2.2 == m.2.2) && ((m :: ms).map (·.2.1)) == List.range m.2.2
     then some ((m :: ms).map (·.1)) else none
   | _, _ => none
 
@@ -65,12 +68,14 @@ def srcAdv (b : List Nat) : List Ix → List Nat → List Nat
   | .mesh ids k _ :: t, sl => ids.getD (b.getD k 0) 0 :: srcAdv b t sl
   | _, _ => []
 
+def ixOk : Ix → Nat → Bool
+  | .int i, n => decide (i < n)
+  | .all, _ => true
+  | .list ids, n => ids.all (· < n)
+  | .mesh ids _ _, n => ids.all (· < n)
+
 def ixInBounds (ixs : List Ix) (shape : List Nat) : Bool :=
-  (List.zipWith (fun (ix : Ix) n => match ix with
-      | .int i => decide (i < n)
-      | .all => true
-      | .list ids => ids.all (· < n)
-      | .mesh ids _ _ => ids.all (· < n)) ixs shape).all id
+  (List.zipWith ixOk ixs shape).all id
 
 def sliceLens (ixs : List Ix) (shape : List Nat) : List Nat :=
   (List.zipWith (fun (ix : Ix) n => (ix, n)) ixs shape).filterMap
